@@ -7,6 +7,7 @@ mod c03;
 mod c04;
 mod c05;
 mod c06;
+mod c08;
 mod c10;
 mod c11;
 mod c15;
@@ -35,6 +36,7 @@ fn main() {
                 "C04" => c04::search(obl),
                 "C05" => c05::search(obl),
                 "C06" => c06::search(obl),
+                "C08" => c08::search(obl),
                 "C10" => c10::search(obl),
                 "C11" => c11::search(obl),
                 "C15" => c15::search(obl),
@@ -56,6 +58,7 @@ fn main() {
                 ("C04", Some(i)) => c04::check_one(&i),
                 ("C05", Some(i)) => c05::check_one(&i),
                 ("C06", Some(i)) => c06::check_one(&i),
+                ("C08", Some(i)) => c08::check_one(&i),
                 ("C10", Some(i)) => c10::check_one(&i),
                 ("C11", Some(i)) => c11::check_one(&i),
                 ("C15", Some(i)) => c15::check_one(&i),
